@@ -350,4 +350,131 @@ Proof.
     + (* plain *) unfold vstep. rewrite IH by reflexivity. unfold v_cl_ok; cbn [v_has v_cl]. tauto.
 Qed.
 
+(* the first block, from any state of the flags *)
+Definition ex (nm : bytes) (fs : list field) : bool := existsb (has_name nm) fs.
+
+Definition G (st : vst) (fs : list field) : Prop :=
+  forallb lowerf fs = true /\ pseudo_defined fs = true /\
+  (if v_r st then no_pseudo fs else pseudo_first fs) = true /\
+  no_connection_fields fs = true /\ te_ok fs = true /\
+  upto (v_m st) P_method fs = true /\ upto (v_s st) P_scheme fs = true /\
+  upto (v_p st) P_path fs = true /\ upto (v_a st) P_authority fs = true /\
+  (v_m st || ex P_method fs) = true /\ (v_s st || ex P_scheme fs) = true /\ (v_p st || ex P_path fs) = true /\
+  (if ex P_path fs then path_not_empty fs else negb (is_nil (v_path st))) = true /\
+  v_cl_ok st n = true /\ content_length_ok n fs = true.
+
+Definition accepted (st : vst) (fs : list field) : Prop :=
+  exists st1, vrun cfg st fs = inr st1 /\ v_valid st1 = true /\ v_cl_ok st1 n = true.
+
+Lemma upto_cons seen nm f t :
+  upto seen nm (f :: t) = if has_name nm f then negb seen && none nm t else upto seen nm t.
+Proof. unfold upto. rewrite none_cons, amo_cons. destruct seen, (has_name nm f); reflexivity. Qed.
+
+Lemma G_cons st k v t :
+  G st ((k, v) :: t) <->
+  lower_case k = true /\ forallb lowerf t = true /\
+  (if Http2Messages.is_pseudo (k, v) then name_in request_pseudo (k, v) else true) = true /\ pseudo_defined t = true /\
+  (if Http2Messages.is_pseudo (k, v) then (if v_r st then false else pseudo_first t) else no_pseudo t) = true /\
+  name_in connection_specific (k, v) = false /\ no_connection_fields t = true /\
+  (if has_name H_te (k, v) then bytes_eqb v V_trailers else true) = true /\ te_ok t = true /\
+  (if has_name P_method (k, v) then negb (v_m st) && none P_method t else upto (v_m st) P_method t) = true /\
+  (if has_name P_scheme (k, v) then negb (v_s st) && none P_scheme t else upto (v_s st) P_scheme t) = true /\
+  (if has_name P_path (k, v) then negb (v_p st) && none P_path t else upto (v_p st) P_path t) = true /\
+  (if has_name P_authority (k, v) then negb (v_a st) && none P_authority t else upto (v_a st) P_authority t) = true /\
+  (v_m st || (has_name P_method (k, v) || ex P_method t)) = true /\
+  (v_s st || (has_name P_scheme (k, v) || ex P_scheme t)) = true /\
+  (v_p st || (has_name P_path (k, v) || ex P_path t)) = true /\
+  (if has_name P_path (k, v) || ex P_path t
+   then (if has_name P_path (k, v) then negb (bytes_eqb v []) else true) && path_not_empty t
+   else negb (is_nil (v_path st))) = true /\
+  v_cl_ok st n = true /\
+  (if has_name H_content_length (k, v) then cl_field_ok v else true) = true /\ content_length_ok n t = true.
+Proof.
+  unfold G. rewrite !upto_cons.
+  unfold pseudo_defined, no_connection_fields, te_ok, content_length_ok, path_not_empty, ex, lowerf, no_pseudo, cl_field_ok.
+  cbn [forallb existsb pseudo_first fst snd].
+  destruct (Http2Messages.is_pseudo (k, v)), (v_r st); cbn [negb orb]; bsplit; (split; intros HH; decompose [and] HH; clear HH; repeat split; assumption).
+Qed.
+
+Lemma accepted_cons st k v t :
+  accepted st ((k, v) :: t) <-> exists st1, vstep cfg st (classify k) v = inr st1 /\ accepted st1 t.
+Proof.
+  unfold accepted. cbn [vrun]. destruct (vstep cfg st (classify k) v) as [c|st1].
+  - split; [intros (? & ? & _); discriminate | intros (? & ? & _); discriminate].
+  - split; [intros H; exists st1; auto | intros (? & E & H); inversion E; subst; assumption].
+Qed.
+
+Lemma ex_inr st' (P : vst -> Prop) : (exists st1 : vst, @inr N vst st' = inr st1 /\ P st1) <-> P st'.
+Proof. split; [intros (? & E & H); inversion E; subst; assumption | intro H; exists st'; auto]. Qed.
+Lemma ex_inl c (P : vst -> Prop) : (exists st1 : vst, @inl N vst c = inr st1 /\ P st1) <-> False.
+Proof. split; [intros (? & E & _); discriminate | intros []]. Qed.
+
+Ltac absurd_hyp :=
+  match goal with
+  | H : false = true |- _ => discriminate H
+  | H : true = false |- _ => discriminate H
+  | H : False |- _ => destruct H
+  end.
+Ltac fin := bsplit; split; intros HH; try (exfalso; exact HH); decompose [and] HH; clear HH;
+            try absurd_hyp; repeat split; auto; try (rewrite ?orb_true_r; reflexivity).
+Ltac gstep IH := cbn [orb negb andb]; rewrite ?ex_inr, ?ex_inl, ?IH; unfold G, v_cl_ok; cbn [v_m v_s v_p v_a v_r v_cl v_has v_path upto orb negb andb].
+
+Lemma V_trailers_eq : V_trailers = S_trailers.
+Proof. reflexivity. Qed.
+
+Lemma accepted_G : forall fs st, accepted st fs <-> G st fs.
+Proof.
+  induction fs as [|[k v] t IH]; intros st.
+  - unfold accepted, G, v_valid, ex. cbn [vrun forallb pseudo_defined existsb]. unfold upto, none, at_most_once, no_pseudo.
+    cbn. rewrite !orb_false_r. split.
+    + intros (st1 & E & V & C). inversion E; subst. bsplit. destruct V as [[[-> ->] ->] ?].
+      destruct (v_r st1), (v_a st1); repeat split; auto.
+    + intros H. exists st. bsplit. decompose [and] H. repeat split; auto.
+  - rewrite accepted_cons, G_cons. destruct (lower_case k) eqn:L.
+    2:{ rewrite upper_rejected by assumption. split; [intros (? & ? & _); discriminate | intros (? & _); discriminate]. }
+    destruct (view k v L) as [Vu Vp Vm Vpa Vs Va Vc Vt Vl]. rewrite Vp, Vm, Vpa, Vs, Va, Vc, Vt, Vl.
+    unfold name_in, request_pseudo. cbn [existsb]. rewrite Vm, Vpa, Vs, Va.
+    destruct (classify k) eqn:C; try congruence; cbn [cls_pseudo cls_eqb orb andb]; unfold vstep.
+    + abstract (destruct (v_r st) eqn:Er, (v_m st) eqn:Em; gstep IH; rewrite ?Er, ?Em; cbn [negb andb orb]; fin).
+    + destruct (v_r st) eqn:Er, (v_p st) eqn:Em; gstep IH; rewrite ?Er, ?Em; cbn [negb andb orb]; try solve [abstract fin].
+      unfold none, ex. rewrite bytes_eqb_nil. destruct (existsb (has_name P_path) t) eqn:X; cbn [negb]; [abstract fin|].
+      rewrite (pne_none _ X). abstract fin.
+    + abstract (destruct (v_r st) eqn:Er, (v_s st) eqn:Em; gstep IH; rewrite ?Er, ?Em; cbn [negb andb orb]; fin).
+    + abstract (destruct (v_r st) eqn:Er, (v_a st) eqn:Em; gstep IH; rewrite ?Er, ?Em; cbn [negb andb orb]; fin).
+    + destruct (v_r st).
+      * abstract (gstep IH; fin).
+      * abstract (gstep IH; fin).
+    + abstract (gstep IH; fin).
+    + rewrite V_trailers_eq. destruct (bytes_eqb v S_trailers).
+      * gstep IH. destruct (v_r st). { abstract fin. } { abstract fin. }
+      * gstep IH. abstract fin.
+    + 
+      pose proof (cl_step st v) as S. unfold vstep in S. 
+      destruct (match parse_uint v with Some z => _ | None => _ end) as [c|st1].
+      * gstep IH. split; [intros [] | intros HH; decompose [and] HH; clear HH]. 
+        match goal with A : (if v_has st then _ else _) = true |- _ => fold (v_cl_ok st n) in A; rewrite (S A) in *; discriminate end.
+      * destruct S as [E S]. gstep IH. fold (v_cl_ok st1 n) (v_cl_ok st n). rewrite S. rewrite E.
+        cbn [v_m v_s v_p v_a v_r v_cl v_has v_path upto]. destruct (v_r st); abstract fin.
+    + gstep IH; destruct (v_r st); abstract fin.
+Qed.
+
+Lemma vacc2_iff st fs tr : vacc2 cfg st fs tr n = true <-> G st fs /\ TR tr = true.
+Proof.
+  rewrite <- accepted_G. unfold vacc2, accepted. destruct (vrun cfg st fs) as [c|st1].
+  - split; [discriminate | intros [(? & ? & _) _]; discriminate].
+  - rewrite andb_true_iff, vacc_regular by reflexivity.
+    assert (E : v_cl_ok (v_setr st1) n = v_cl_ok st1 n) by reflexivity. rewrite E. split.
+    + intros (V & C & T). split; [exists st1; auto | assumption].
+    + intros [(x & X & V & C) T]. inversion X; subst. auto.
+Qed.
+
+Theorem vacc2_wf fs tr : vacc2 cfg v0 fs tr n = wf_request fs tr n.
+Proof.
+  apply eq_true_iff_eq. rewrite vacc2_iff. unfold G, TR, wf_request, v0, v_cl_ok.
+  cbn [v_m v_s v_p v_a v_r v_cl v_has v_path upto orb is_nil negb].
+  rewrite !once_split. fold (ex P_method fs) (ex P_scheme fs) (ex P_path fs).
+  unfold no_connection_fields, te_ok, content_length_ok, lowerf.
+  rewrite !forallb_app, !existsb_app. destruct (ex P_path fs); bsplit;
+    (split; intros HH; decompose [and] HH; clear HH; try absurd_hyp; repeat split; auto).
+Qed.
 End Verdict.
